@@ -206,7 +206,7 @@ class MaterialFile(BaseMaterial):
         try:
             n = 1 + c[0]
             for k in range(1, len(c), 2):
-                n += c[k] / (c[k+1] - w**-2)
+                n += c[k] / (c[k+1] - 1 / w**2)
             return n
         except IndexError:
             raise ValueError('Invalid coefficients for dispersion formula 6.')
